@@ -212,7 +212,7 @@ fn restricted_sentence(dr: &mut Drawer) -> String {
 
 pub fn run(ctx: &Ctx) -> Outcome {
     let mut out = Outcome::new(
-        "Every TZif file of the vendored tzdata 2025b snapshot (447 files of the main tree against glibc and CPython zoneinfo; 447 of the right/ tree against glibc, tz-rs asked at UTC instant u and glibc at the count F(u)): every recorded transition -1/0/+1, random instants 1900-2500, instants governed by the footer rule (its start/end instants +-1 in far-future years). \
+        "Every TZif file of the vendored tzdata 2025b snapshot (447 files of the main tree against glibc and CPython zoneinfo; 447 of the right/ tree against glibc, tz-rs asked at UTC instant u and glibc at the count F(u)): every recorded transition -1/0/+1, random instants 1900-2500, instants governed by the footer rule (its start/end instants +-1 in far-future years); local times every 15 min +-1 s in the +-3 h around recorded transitions and around the footer rule's transitions of 2040 and 2101 (search vs mktime / fold). \
          mktime: local times within 3 h of transitions since 1970 (15-minute steps +-1 s): the set of instants implied by each reference's forward function (u = L - o over all offsets of the file, kept when the reference shows offset o at u) must equal the valid results of DateTime::find. \
          TZ strings: random well-formed descriptions with rules (days 10..350 / months 2..11, years 1971-2400: the domain where glibc's evaluator is itself right) given to glibc's TZ-environment parser and to TimeZoneSettings. \
          Non-trivial: instant within 1 s of a transition, or governed by the footer, or in a right/ zone after 1972, or a local time with 0 or >= 2 instants.",
@@ -360,12 +360,25 @@ pub fn run(ctx: &Ctx) -> Outcome {
                 let trs = zr.transitions();
                 // one caller-provided buffer reused for every local time of this file (mktime callers do that)
                 let mut reused = [None; 4];
+                let mut events: Vec<(i64, i32)> = vec![];
                 for (k, t) in trs.iter().enumerate() {
                     let tt = t.unix_leap_time();
                     if tt < 0 || tt > hi || ((k + fi) % mk_every != 0 && k + 1 != trs.len()) {
                         continue;
                     }
                     let off_before = if k == 0 { zr.local_time_types()[0].ut_offset() } else { zr.local_time_types()[trs[k - 1].local_time_type_index()].ut_offset() };
+                    events.push((tt, off_before));
+                }
+                // the transitions the footer rule generates after the table (gap and fold hours of two far years)
+                if let Some(TransitionRule::Alternate(a)) = zr.extra_rule() {
+                    let r = MRule::from_tz(a);
+                    for y in [2040i64, 2101] {
+                        events.push((r.s(y), r.std.off));
+                        events.push((r.e(y), r.dst.off));
+                        st.class_n("mktime_footer_rule_events", 2);
+                    }
+                }
+                for (tt, off_before) in events {
                     for step in -12i64..=12 {
                         for d in [-1i64, 0, 1] {
                             let l = tt + off_before as i64 + step * 900 + d;
@@ -383,8 +396,26 @@ pub fn run(ctx: &Ctx) -> Outcome {
                                     return Err(Failure::new("ref", format!("{name} local time {cv:?}: with a reused buffer the earliest/latest/unique instants are {:?}/{:?}/{:?}, the allocating search gives {e0:?}/{l0:?}/{u0:?}", r.earliest().map(|d| d.unix_time()), r.latest().map(|d| d.unix_time()), r.unique().map(|d| d.unix_time())), json!({"what": name})));
                                 }
                             }
-                            let mut set: Vec<i64> = found.into_inner().iter().filter_map(|k| if let FoundDateTimeKind::Normal(d) = k { Some(d.unix_time()) } else { None }).collect();
+                            let list = found.into_inner();
+                            let mut set: Vec<i64> = list.iter().filter_map(|k| if let FoundDateTimeKind::Normal(d) = k { Some(d.unix_time()) } else { None }).collect();
                             set.sort();
+                            if set.is_empty() {
+                                // a local time no instant shows: the search must say so with one gap entry, placed on an instant at which
+                                // the references really switch from the entry's first type to its second, the local time lying in between
+                                match list.as_slice() {
+                                    [FoundDateTimeKind::Skipped { before_transition: bt, after_transition: at }] if bt.unix_time() == at.unix_time() => {
+                                        let u = bt.unix_time();
+                                        let (ob, oa) = (bt.local_time_type().ut_offset() as i64, at.local_time_type().ut_offset() as i64);
+                                        if !(u + ob <= l && l < u + oa) {
+                                            return Err(Failure::new("ref", format!("{name} local time {cv:?}: gap entry at {u} with offsets {ob} -> {oa} does not contain the searched local time"), json!({"what": name})));
+                                        }
+                                        st.class("mktime_gap_entry_checked_against_references");
+                                        b.q(u - 1, u - 1, Rec { what: format!("{name} at u={} (last second before the gap reported for {cv:?})", u - 1), exp: Expect::Type(bt.local_time_type().ut_offset(), bt.local_time_type().is_dst(), abbr_of(bt.local_time_type()), None), refs: (true, true), cmds: Default::default() });
+                                        b.q(u, u, Rec { what: format!("{name} at u={u} (first second after the gap reported for {cv:?})"), exp: Expect::Type(at.local_time_type().ut_offset(), at.local_time_type().is_dst(), abbr_of(at.local_time_type()), None), refs: (true, true), cmds: Default::default() });
+                                    }
+                                    other => return Err(Failure::new("ref", format!("{name} local time {cv:?}: no instant shows it (the references agree below), but the search reports {} entries instead of exactly one gap entry", other.len()), json!({"what": name}))),
+                                }
+                            }
                             if set.len() != 1 {
                                 st.nontrivial(&(fi, l));
                                 st.class(if set.is_empty() { "mktime_skipped" } else { "mktime_ambiguous" });
